@@ -258,7 +258,8 @@ pub fn bfs(depth: usize, size_cap: usize, acc: &mut Acc, state_cap: usize) -> Bf
     let mut per_level = vec![frontier.len()];
     let mut ntrans = 0u64;
     let mut cut = 0u64;
-    for _lvl in 0..depth {
+    for lvl in 0..depth {
+        let last = lvl + 1 == depth;
         let parts: Vec<(Acc, Vec<(Vec<u8>, Vec<String>)>, u64)> = frontier
             .par_chunks(64)
             .map(|chunk| {
@@ -273,6 +274,9 @@ pub fn bfs(depth: usize, size_cap: usize, acc: &mut Acc, state_cap: usize) -> Bf
                         if let Some(nb) = judge(t, &mut a, &|| json!({"initial_and_history": hist, "state": format!("{:?}", v), "state_hex": hex(b)})) {
                             if nb.len() > size_cap {
                                 cut += 1;
+                            } else if last {
+                                // states of the last level are only counted, never expanded
+                                succ.push((nb, Vec::new()));
                             } else {
                                 let mut h = hist.clone();
                                 h.push(t.label.clone());
